@@ -60,7 +60,9 @@ impl<T> EventSource for Park<'_, T> {
         let wait_co = &self.queue.wait_co;
         wait_co.store(Blocker::new_coroutine(co));
         // re-check the state, only clear once after resume
-        if !self.queue.queue.is_empty() {
+        // the last sender may be dropped after our failed try_recv, it finds
+        // nobody to wake up, so the disconnect must be re-checked here as well
+        if !self.queue.queue.is_empty() || self.queue.channels.load(Ordering::Relaxed) == 0 {
             if let Some(co) = wait_co.take() {
                 run_coroutine(co.into_coroutine());
             }
